@@ -1317,3 +1317,175 @@ Print Assumptions merge_n_lv.
 Print Assumptions api_merge_output_general.
 Print Assumptions api_merge_output.
 Print Assumptions api_mergemerge_output.
+
+(* ================================================================================================ *)
+(* 9. CreateMergePatch (v5): the output bytes                                                        *)
+(* ================================================================================================ *)
+(* every number literal of a decoded value is a complete number *)
+Definition onum_ok (j : ojson) : Prop := forall lit, In lit (onums j) -> num_ok lit.
+
+Lemma onum_ok_arr l x : onum_ok (OArr l) -> In x l -> onum_ok x.
+Proof. intros H Hx lit Hl. apply H. cbn [onums]. apply in_flat_map. exists x. split; assumption. Qed.
+
+Lemma onum_ok_obj ms kv : onum_ok (OObj ms) -> In kv ms -> onum_ok (snd kv).
+Proof. intros H Hx lit Hl. apply H. cbn [onums]. apply in_flat_map. exists kv. split; assumption. Qed.
+
+Theorem tok_encode_sorted j : onum_ok j -> tok (encode_sorted j).
+Proof.
+  induction j as [|b|lit|s|l IH|ms IH] using ojson_rect'; intro U; try exact I.
+  - destruct b; exact I.
+  - rewrite encode_sorted_num. apply U. left. reflexivity.
+  - rewrite encode_sorted_str. apply body_ok_quote.
+  - rewrite encode_sorted_arr. apply tok_arr. rewrite Forall_map. rewrite Forall_forall in *.
+    intros x Hin. apply (IH x Hin). apply (onum_ok_arr l x U Hin).
+  - rewrite encode_sorted_obj. apply tok_obj. rewrite Forall_map. cbn [fst snd].
+    rewrite Forall_forall in IH. apply Forall_forall. intros kv Hin. apply In_sort4 in Hin.
+    apply in_map_iff in Hin as [kv0 [<- Hin0]]. cbn [fst snd].
+    split; [apply body_ok_quote | apply (IH _ Hin0); apply (onum_ok_obj ms kv0 U Hin0)].
+Qed.
+
+Lemma tok_tnums t : tok t -> forall lit, In lit (tnums t) -> num_ok lit.
+Proof.
+  induction t as [| | |l0|b|l IH|ms IH] using tjson_rect'; intros T lit Hin; cbn [tnums] in Hin; try contradiction.
+  - destruct Hin as [<-|[]]. exact T.
+  - apply in_flat_map in Hin as [x [Hx Hl]]. apply tok_arr in T. rewrite Forall_forall in *. apply (IH x Hx (T x Hx) lit Hl).
+  - apply in_flat_map in Hin as [kv [Hx Hl]]. apply tok_obj_parts in T. rewrite Forall_forall in *. apply (IH kv Hx (T kv Hx) lit Hl).
+Qed.
+
+Lemma onums_den t : forall lit, In lit (onums (den t)) -> In lit (tnums t).
+Proof.
+  induction t as [| | |l0|b|l IH|ms IH] using tjson_rect'; intros lit Hin; cbn [den onums tnums] in *; try contradiction.
+  - exact Hin.
+  - apply in_flat_map in Hin as [j [Hj Hl]]. apply in_map_iff in Hj as [x [<- Hx]]. apply in_flat_map. exists x.
+    split; [exact Hx|]. rewrite Forall_forall in IH. apply (IH x Hx lit Hl).
+  - apply in_flat_map in Hin as [kv [Hk Hl]]. unfold resolve_dups in Hk. apply in_map_iff in Hk as [kv0 [<- Hk0]].
+    cbn [snd] in Hl.
+    set (m := map (fun kv => (unquote (fst kv), den (snd kv))) ms) in *.
+    assert (G : exists kv1, In kv1 m /\ In lit (onums (snd kv1))).
+    { destruct (alast_in (fst kv0) m (snd kv0)) as [E|[kv1 [I1 E]]]; rewrite E in Hl; eauto. }
+    destruct G as [kv1 [I1 Hl1]]. unfold m in I1. apply in_map_iff in I1 as [kv2 [<- I2]]. cbn [snd] in Hl1.
+    apply in_flat_map. exists kv2. split; [exact I2|]. rewrite Forall_forall in IH. apply (IH kv2 I2 lit Hl1).
+Qed.
+
+Corollary onum_ok_den t : tok t -> onum_ok (den t).
+Proof. intros T lit Hin. apply (tok_tnums t T). apply onums_den. exact Hin. Qed.
+
+Lemma onum_ok_diff a b : onum_ok b -> onum_ok (diff a b).
+Proof. intros H lit Hin. apply H. apply (onums_diff b a lit Hin). Qed.
+
+(* ---- nesting ---- *)
+Lemma encode_sorted_depth j : (Text.tdepth (encode_sorted j) <= odepth j)%N.
+Proof.
+  induction j as [|b|lit|s|l IH|ms IH] using ojson_rect'; try (cbn; lia).
+  - destruct b; cbn; lia.
+  - rewrite encode_sorted_arr, tdepth_arr, odepth_arr, maxd_map.
+    assert (maxd (fun x => Text.tdepth (encode_sorted x)) l <= maxd odepth l)%N; [|lia].
+    apply maxd_bound. intros x Hx. rewrite Forall_forall in IH. pose proof (IH x Hx). pose proof (maxd_le odepth l x Hx). lia.
+  - rewrite encode_sorted_obj, tdepth_obj, odepth_obj, maxd_map. cbn [snd].
+    assert (maxd (fun kv : bytes * tjson => Text.tdepth (snd kv)) (sort4 (map (fun kv => (fst kv, encode_sorted (snd kv))) ms))
+            <= maxd (fun kv => odepth (snd kv)) ms)%N; [|lia].
+    apply maxd_bound. intros kv Hin. apply In_sort4 in Hin. apply in_map_iff in Hin as [kv0 [<- Hin0]]. cbn [snd].
+    rewrite Forall_forall in IH. pose proof (IH kv0 Hin0). pose proof (maxd_le (fun kv => odepth (snd kv)) ms kv0 Hin0).
+    cbn beta in *. lia.
+Qed.
+
+Lemma diff_depth b : forall a, (odepth (diff a b) <= odepth b)%N.
+Proof.
+  induction b as [|b0|lit|s|l IH|bms IH] using ojson_rect'; intro a;
+    try (rewrite diff_nonobj by (destruct a; reflexivity); lia).
+  destruct (is_obj a) eqn:Oa; [|rewrite diff_nonobj by (rewrite Oa; reflexivity); lia].
+  apply is_obj_true in Oa as [ams ->]. rewrite diff_obj, !odepth_obj.
+  assert (maxd (fun kv => odepth (snd kv)) (diff_members ams bms ++ diff_dels ams bms) <= maxd (fun kv => odepth (snd kv)) bms)%N; [|lia].
+  apply maxd_bound. intros kv Hin.
+  assert (F : Forall (fun kv : bytes * ojson => (odepth (snd kv) <= maxd (fun kv => odepth (snd kv)) bms)%N)
+                     (diff_members ams bms ++ diff_dels ams bms)).
+  { apply Forall_app. split.
+    - apply diff_members_P.
+      + intros k bv Hb. apply (maxd_le (fun kv => odepth (snd kv)) bms (k, bv) Hb).
+      + intros k av bv Hb _ _ _. cbn [snd]. rewrite Forall_forall in IH. pose proof (IH _ Hb av) as Q. cbn [snd] in Q.
+        pose proof (maxd_le (fun kv => odepth (snd kv)) bms (k, bv) Hb) as R. cbn [snd] in R. lia.
+    - apply diff_dels_P. intros k av _. cbn. lia. }
+  rewrite Forall_forall in F. apply (F kv Hin).
+Qed.
+
+(* ---- the patch CreateMergePatch builds for one pair ---- *)
+Lemma one_le_max_depth : (1 <= max_depth)%N. Proof. unfold max_depth. lia. Qed.
+
+Lemma as_obj_facts d t oa : tok t -> (1 <= d)%N -> (Text.tdepth t <= d)%N -> as_obj t = Some oa -> onum_ok oa /\ (odepth oa <= d)%N.
+Proof.
+  intros T D1 D. destruct t; cbn [as_obj]; try discriminate; intro E; inversion E; subst.
+  - split; [intros lit []|]. cbn. lia.
+  - split; [apply onum_ok_den; exact T|]. pose proof (den_depth_le (TObj ms)). lia.
+Qed.
+
+Lemma create_object_wf d x y p : tok y -> (1 <= d)%N -> (Text.tdepth y <= d)%N ->
+  create_object x y = Some p -> tok p /\ (Text.tdepth p <= d)%N.
+Proof.
+  intros T D1 D. rewrite create_object_spec. destruct (as_obj x) as [oa|]; [|discriminate].
+  destruct (as_obj y) as [ob|] eqn:Eb; [|discriminate]. intro E; inversion E; subst.
+  destruct (as_obj_facts d y ob T D1 D Eb) as [N Dp]. split.
+  - apply tok_encode_sorted. apply onum_ok_diff. exact N.
+  - pose proof (encode_sorted_depth (diff oa ob)). pose proof (diff_depth ob oa). lia.
+Qed.
+
+Lemma create_elems_wf d la : forall lb ps, Forall tok lb -> (1 <= d)%N -> Forall (fun y => (Text.tdepth y <= d)%N) lb ->
+  create_elems la lb = Some ps -> Forall (fun p => tok p /\ (Text.tdepth p <= d)%N) ps.
+Proof.
+  induction la as [|x la IH]; intros lb ps T D1 D; cbn [create_elems].
+  - intro E; inversion E; constructor.
+  - destruct lb as [|y lb]; [intro E; inversion E; constructor|].
+    inversion T as [|? ? T1 T2]; subst. inversion D as [|? ? Dy Dl]; subst.
+    destruct (create_object x y) as [p|] eqn:Ec; [|discriminate].
+    destruct (create_elems la lb) as [ps'|] eqn:Ee; [|discriminate]. intro E; inversion E; subst.
+    constructor; [eapply create_object_wf; eauto | eapply IH; eauto].
+Qed.
+
+(* every successful CreateMergePatch call returns a JSON text *)
+Theorem api_create_output_general a b out :
+  api_create a b = MOut out -> exists t', parse out = Some t' /\ valid_gen out = true.
+Proof.
+  rewrite api_create_unfold. destruct (parse a) as [ta|] eqn:Pa; [|discriminate].
+  destruct (parse b) as [tb|] eqn:Pb; [|discriminate].
+  pose proof (parse_twf _ _ Pb) as Wb. apply twf_text in Wb as [Tb Db].
+  assert (Obj : match create_object ta tb with Some p => MOut (print true p) | None => MErr MBadDoc end = MOut out ->
+                exists t', parse out = Some t' /\ valid_gen out = true).
+  { destruct (create_object ta tb) as [p|] eqn:Ec; [|discriminate]. intro H; inversion H; subst.
+    destruct (create_object_wf max_depth ta tb p Tb one_le_max_depth Db Ec) as [Tp Dp].
+    assert (Pp : parse (print true p) = Some (escape_tree true p)) by (apply parse_print_any; apply twf_text; split; assumption).
+    eexists. split; [exact Pp | apply valid_gen_iff_parse; eauto]. }
+  destruct ta; try (destruct tb; try exact Obj; discriminate).
+  destruct tb; try discriminate.
+  destruct (length l =? length l0)%nat; [|discriminate].
+  rewrite create_go_spec. destruct (create_elems l l0) as [ps|] eqn:Ee; [|discriminate].
+  cbn [app]. intro H; inversion H; subst.
+  assert (D0 : (1 <= max_depth - 1)%N) by (unfold max_depth; lia).
+  assert (F : Forall (fun p => tok p /\ (Text.tdepth p <= max_depth - 1)%N) ps).
+  { apply (create_elems_wf (max_depth - 1) l l0 ps); [apply tok_arr; exact Tb | exact D0 | | exact Ee].
+    rewrite tdepth_arr in Db. apply Forall_forall. intros y Hy. pose proof (maxd_le Text.tdepth l0 y Hy). lia. }
+  assert (Pp : parse (print true (TArr ps)) = Some (escape_tree true (TArr ps))).
+  { apply parse_print_any. apply twf_text. split.
+    - apply tok_arr. revert F. apply Forall_impl. intros p [H1 _]. exact H1.
+    - rewrite tdepth_arr. assert (maxd Text.tdepth ps <= max_depth - 1)%N; [|unfold max_depth in *; lia].
+      apply maxd_bound. intros p Hp. rewrite Forall_forall in F. apply (F p Hp). }
+  eexists. split; [exact Pp | apply valid_gen_iff_parse; eauto].
+Qed.
+
+(* two objects without duplicate names: the bytes denote the reference difference *)
+Theorem api_create_output a b ams bms :
+  parse a = Some (TObj ams) -> parse b = Some (TObj bms) -> tnodup (TObj ams) = true -> tnodup (TObj bms) = true ->
+  exists out t', api_create a b = MOut out /\ parse out = Some t' /\
+                 jeq (den t') (diff (den (TObj ams)) (den (TObj bms))) = true /\ valid_gen out = true.
+Proof.
+  intros Pa Pb Na Nb.
+  destruct (api_create_correct a b ams bms Pa Pb Na Nb (parse_tsb _ _ Pa) (parse_tsb _ _ Pb)) as [p [E [Ep [Sp [_ [J _]]]]]].
+  pose proof (parse_twf _ _ Pb) as Wb. apply twf_text in Wb as [Tb Db].
+  assert (Ec : create_object (TObj ams) (TObj bms) = Some p) by (rewrite create_object_spec; cbn [as_obj]; rewrite Ep; reflexivity).
+  destruct (create_object_wf max_depth _ _ p Tb one_le_max_depth Db Ec) as [Tp Dp].
+  assert (Pp : parse (print true p) = Some (escape_tree true p)) by (apply parse_print_any; apply twf_text; split; assumption).
+  exists (print true p), (escape_tree true p). split; [exact E|]. split; [exact Pp|]. split.
+  - rewrite escape_tree_den by exact Sp. exact J.
+  - apply valid_gen_iff_parse. eauto.
+Qed.
+
+Print Assumptions api_create_output_general.
+Print Assumptions api_create_output.
